@@ -499,6 +499,10 @@ func (rn *runner) insert(r request) (bool, string) {
 	if ts == nil {
 		return false, "no table"
 	}
+	if rn.db.GetView(r.T) != "" {
+		// a query on this name means the view, the row would go elsewhere
+		return false, "shadowed by a view"
+	}
 	cols := []string{}
 	for _, c := range ts.Columns {
 		if c != "-" {
@@ -723,6 +727,12 @@ func probes(ts []tinfo) []request {
 			Fk: fkSpec{Tbl: t.idxs[0].Fk.Tbl, Cols: t.idxs[0].Fk.Cols, Mode: t.idxs[0].Fk.Mode}}))
 		add(ensure(t.name, nil, idxSpec{Mode: map[string]string{"k": "i", "i": "u", "u": "k"}[t.idxs[0].Mode], Cols: t.idxs[0].Cols}))
 		add(ensure(t.name, cl(nc), key(nc).in(t.name, 0, keysOf(t)[0]...), index(t.idxs[0].Cols...)))
+		for _, t2 := range ts {
+			if k := keysOf(t2)[0]; len(k) == 1 {
+				add(ensure(t.name, nil, index(t.cols[len(t.cols)-1]).in(t2.name, 0, k...)))
+				add(ensure(t.name, cl(nc), uniq(nc).in(t2.name, 3, k...)))
+			}
+		}
 		// create existing
 		add(create(t.name, cl("a"), key("a")))
 	}
